@@ -315,6 +315,13 @@ def fsApply (fs : Fs) : FsOp → Fs
   | .copy a b f ft => (fileCopy fs a b f ft).1
   | .file p fl sc => (fileSession fs p fl sc).1
 
+/-- the world every history of the correspondence run starts from: `/s` (scratch, working directory) and the
+    outside sentinel `/o` (file `of` = "OUT", directory `od` with file `x` = "X") -/
+def initFs : Fs :=
+  ⟨[([[115]], .dir), ([[111]], .dir), ([[111], [111, 102]], .file [79, 85, 84]),
+    ([[111], [111, 100]], .dir), ([[111], [111, 100], [120]], .file [88])]⟩
+
+
 /-- the world after a history -/
 def fsRun (fs : Fs) (ops : List FsOp) : Fs := ops.foldl fsApply fs
 
